@@ -87,16 +87,17 @@ func (v *visitor) VisitParse(ctx *gen.ParseContext) any {
 func (v *visitor) VisitImplicitCondition(ctx *gen.ImplicitConditionContext) any {
 	value := v.Visit(ctx.Literal()).(string)
 
+	// only a value with a known scheme is a URN: the scheme becomes a property key which has to be writable as such
 	asURN, _ := urns.Parse(value)
+	scheme, path, _, _ := asURN.ToParts()
+	isURN := asURN != urns.NilURN && urns.IsValidScheme(scheme)
 
 	if v.env.RedactionPolicy() == envs.RedactionPolicyURNs {
 		num, err := strconv.Atoi(value)
 		if err == nil {
 			return NewCondition(PropertyTypeAttribute, AttributeID, OpEqual, strconv.Itoa(num))
 		}
-	} else if asURN != urns.NilURN {
-		scheme, path, _, _ := asURN.ToParts()
-
+	} else if isURN {
 		return NewCondition(PropertyTypeURN, scheme, OpEqual, path)
 
 	} else if implicitIsPhoneNumberRegex.MatchString(value) {
